@@ -5,6 +5,7 @@ import (
 	"encoding/json"
 	"errors"
 	"fmt"
+	"io"
 	"net"
 	"net/http"
 	"net/http/httptest"
@@ -39,6 +40,7 @@ type poolObs struct {
 	Params  string
 	Router  string
 	Query   string
+	App     string // the application's own handler slice, once given to SetHandlers: "own" as long as nobody else wrote into it
 	Errors  int
 	Aborted bool
 	Status  int
@@ -57,14 +59,15 @@ func init() {
 }
 
 type poolRouter struct {
-	r     *rux.Router
-	cur   *poolReq
-	obs   *poolObs
-	w     http.ResponseWriter
-	req   *http.Request
-	other *rux.Router
-	ctxs  map[*rux.Context]bool
-	last  *rux.Context
+	r        *rux.Router
+	cur      *poolReq
+	obs      *poolObs
+	w        http.ResponseWriter
+	req      *http.Request
+	other    *rux.Router
+	appChain rux.HandlersChain
+	ctxs     map[*rux.Context]bool
+	last     *rux.Context
 }
 
 func newPoolRouter(hook, caching bool) *poolRouter {
@@ -116,6 +119,12 @@ func newPoolRouter(hook, caching bool) *poolRouter {
 		if c.Router() != pr.r && !(pr.cur.Kind == "foreign" && c.Router() == nil) { // (a context the caller built has no router: outside C10)
 			o.Router = "foreign"
 		}
+		o.App = "own"
+		for _, h := range pr.appChain[:cap(pr.appChain)][1:] {
+			if h != nil {
+				o.App = "written by the router"
+			}
+		}
 		o.Query = "own"
 		if qv := c.QueryValues(); c.Query("token") != "t" || len(qv["limit"]) != 0 || len(qv) != 1 {
 			o.Query = fmt.Sprintf("dirty%v", qv)
@@ -148,6 +157,10 @@ func newPoolRouter(hook, caching bool) *poolRouter {
 				}
 			case "req":
 				c.Req = c.Req.Clone(c.Req.Context())
+			case "sethandlers":
+				c.SetHandlers(pr.appChain) // the application swaps in a chain of its own (a long-lived slice with spare capacity)
+			case "renderfail":
+				_ = c.Render(200, "bad", nil) // the template fails half way through
 			case "query":
 				qv := c.QueryValues() // the handler's own copy to edit (eg to build the link to the next page)
 				qv.Set("limit", "10")
@@ -157,6 +170,10 @@ func newPoolRouter(hook, caching bool) *poolRouter {
 			}
 		}
 	})
+	pr.appChain = make(rux.HandlersChain, 1, 8)
+	pr.appChain[0] = func(c *rux.Context) {}
+	r.Renderer = poolRenderer{}
+	r.GET("/r", func(c *rux.Context) { _ = c.Render(200, "ok", nil) })
 	pr.other = rux.New()
 	pr.other.Any("/{all}", func(c *rux.Context) { c.Set("other", 1) })
 	boom := func(c *rux.Context) { panic("boom") }
@@ -171,8 +188,20 @@ func newPoolRouter(hook, caching bool) *poolRouter {
 	return pr
 }
 
+// poolRenderer: template "ok" renders a page, template "bad" writes half a page and fails
+type poolRenderer struct{}
+
+func (poolRenderer) Render(w io.Writer, name string, _ any, _ *rux.Context) error {
+	if name == "bad" {
+		_, _ = io.WriteString(w, "<h1>half a page of another request")
+		return errors.New("template failed")
+	}
+	_, err := io.WriteString(w, "<p>ok</p>")
+	return err
+}
+
 func (pr *poolRouter) serve(q *poolReq) (obs *poolObs, code int, body string) {
-	path := map[string]string{"static": "/s", "dynamic": "/d/7", "optional": "/o", "notfound": "/missing", "notallowed": "/p", "panic": "/boom",
+	path := map[string]string{"static": "/s", "dynamic": "/d/7", "optional": "/o", "render": "/r", "notfound": "/missing", "notallowed": "/p", "panic": "/boom",
 		"panichook": "/boom", "foreign": "/s"}[q.Kind]
 	w := httptest.NewRecorder()
 	var rw http.ResponseWriter = w
@@ -231,6 +260,24 @@ func poolReplay(s *Summary, raw json.RawMessage) {
 	lastReq := c.H[len(c.H)-1]
 	twinObs, twinCode, twinBody := newPoolRouter(hook, caching).serve(&lastReq)
 	s.Compared++
+	// mutations that leave nothing in the MODEL's context do not make a model state of their own, so the exported
+	// histories (one per model state and step) need not contain them in front of every kind of request. For the short
+	// histories each of them is therefore added to the first request and the last request is compared with the fresh twin.
+	if len(c.H) == 2 {
+		for _, latent := range []string{"renderfail", "sethandlers", "query", "delegate", "params"} {
+			first := c.H[0]
+			first.Muts = append(append([]string{}, first.Muts...), latent)
+			pv := newPoolRouter(hook, caching)
+			pv.serve(&first)
+			o2, c2, b2 := pv.serve(&lastReq)
+			s.Compared++
+			if o2 == nil || twinObs == nil || !reflect.DeepEqual(*o2, *twinObs) || c2 != twinCode || b2 != twinBody {
+				s.mismatch(map[string]any{"kind": "pool", "aspect": "pristine", "what": fmt.Sprintf(
+					"history [%v %v]: last request observed %+v -> %d %q; on a fresh identical router %+v -> %d %q", first, lastReq, o2, c2, b2, twinObs, twinCode, twinBody)}, c)
+				return
+			}
+		}
+	}
 	hist := fmt.Sprintf("%v", c.H)
 	desc := func(what string) map[string]any {
 		return map[string]any{"kind": "pool", "aspect": "pristine", "what": "history " + hist + ": " + what}
@@ -242,7 +289,7 @@ func poolReplay(s *Summary, raw json.RawMessage) {
 	// against the model
 	want := poolObs{Params: c.Expect["params"].(string), Errors: int(c.Expect["errors"].(float64)), Aborted: c.Expect["aborted"].(bool),
 		Status: int(c.Expect["status"].(float64)), Length: int(c.Expect["length"].(float64)), Resp: c.Expect["resp"].(string), Req: c.Expect["req"].(string),
-		Router: c.Expect["router"].(string), Query: c.Expect["query"].(string)}
+		Router: c.Expect["router"].(string), Query: c.Expect["query"].(string), App: "own"}
 	for _, k := range c.Expect["data"].([]any) {
 		want.Data = append(want.Data, k.(string))
 	}
